@@ -53,6 +53,7 @@ def run(prop, tier, seed, replay=None):
         cases = [tuple(replay["case"])]
     parts = [(seed * 1000 + i, c) for i, c in enumerate(chunked(cases, 250))]
     traces = common.pmap(config.run_cases, parts)
+    texts = [[r.pop("_texts", {}) for r in t] for t in traces]
     ncan = 0
     if replay is None:
         for t in traces:
@@ -83,6 +84,6 @@ def run(prop, tier, seed, replay=None):
             clause = info["clauses"].strip('"')
             c = cases[i * 250 + info["l"] - 1]
             rep.violation(dict(clause=clause, has_file=r["has_file"]), "%s: defaults %s user %s -> %s" % (clause, config.to_toml(r["d"]).replace("\n", " | "), config.to_toml(r["u"]).replace("\n", " | "), config.to_toml(r["result"]).replace("\n", " | ")),
-                          dict(case=list(c), record=r, clause=clause))
+                          dict(case=list(c), record=r, clause=clause, texts=texts[i][info["l"] - 1]))
     rep.assumptions += ["defaults and user files are rendered with one value per line (the property's restriction for the first-run file); tomlkit's parser is trusted", "documents are compared up to key order"]
     return rep.finish()
